@@ -678,6 +678,14 @@ class World(object):
         self.st.frames = [{}]
         return rets[0].value
 
+    def call_inplace(self, obj, meth, data, *more):
+        """obj.meth(buf, *more, output=buf) with buf a bytearray holding `data`: (result, final content of buf)."""
+        buf = bytearray(data)
+        holder = self.it.new_obj(self.st, label="holder", attrs={"buf": buf})
+        r = self.call(obj, meth, buf, *more, output=buf)
+        final = self.st.heap.get(holder.ident, {}).get("buf")
+        return r, (bytes(final) if isinstance(final, (bytes, bytearray)) else None)
+
     def call(self, obj, meth, *args, **kw):
         r = self.repo.find_method(obj.mod, obj.cnode, meth)
         if r is None:
@@ -754,7 +762,19 @@ def run_mode(repo, name, cfg):
             r = w.call(o, "update", p)
             if isinstance(r, tuple):
                 return "update: %r" % (r,)
-    if name == "siv" or how == "one":
+    if how == "inplace" and name == "siv":
+        r, got_c = w.call_inplace(o, "encrypt_and_digest", msg)
+        if not (isinstance(r, tuple) and len(r) == 2 and r[0] is None and isinstance(r[1], bytes)) or got_c is None:
+            return "encrypt_and_digest(output=input): %r" % (r,)
+        got_t = r[1]
+    elif how == "inplace":
+        r, got_c = w.call_inplace(o, "encrypt", msg)
+        if r is not None or got_c is None:
+            return "encrypt(output=input) returns %r" % (r,)
+        got_t = w.call(o, "digest")
+        if not isinstance(got_t, bytes):
+            return "digest: %r" % (got_t,)
+    elif name == "siv" or how == "one":
         r = w.call(o, "encrypt_and_digest", msg)
         if not (isinstance(r, tuple) and len(r) == 2 and all(isinstance(x, bytes) for x in r)):
             return "encrypt_and_digest: %r" % (r,)
@@ -790,7 +810,16 @@ def run_mode(repo, name, cfg):
                 if name == "siv" and not p:
                     continue
                 w.call(o, "update", p)
-        if name == "siv" or how == "one":
+        if how == "inplace" and name == "siv":
+            r, buf = w.call_inplace(o, "decrypt_and_verify", c2, t2)
+            if r is None:
+                r = buf
+        elif how == "inplace":
+            r, buf = w.call_inplace(o, "decrypt", c2)
+            if r is None:
+                v = w.call(o, "verify", t2)
+                r = buf if v is None else v
+        elif name == "siv" or how == "one":
             r = w.call(o, "decrypt_and_verify", c2, t2)
         else:
             r = b""
@@ -841,6 +870,12 @@ def configs(name, thorough=False):
                     variants = [variants[(ml + hl) % len(variants)]] + ([variants[0]] if (ml, hl) in ((17, 21), (0, 0)) else [])
                 for nonce, tlen in variants:
                     out.append(dict(key=key, nonce=nonce, header=pat(hl, 0x30), msg=pat(ml, 0x90), tlen=tlen, how=how))
+    if name != "ocb":
+        # output= aliasing the input (a bytearray encrypted / decrypted in place): same bytes, same verdicts
+        for ml, hl in ((1, 0), (16, 5), (33, 16), (47, 21)) if not thorough else ((1, 0), (15, 1), (16, 5), (17, 16), (33, 16), (47, 21), (64, 40)):
+            key = pat(32 if name in ("siv", "chachapoly") else 16, 0x70 + ml)
+            nonce, tlen = {"eax": (pat(16, 1), 16), "siv": (pat(16, 1), 16), "ccm": (pat(11, 1), 16), "chachapoly": (pat(12, 1), 16)}.get(name, (pat(12, 1), 16))
+            out.append(dict(key=key, nonce=nonce, header=pat(hl, 0x30), msg=pat(ml, 0x90), tlen=tlen, how="inplace"))
     if name == "ccm":
         # SP 800-38C A.2.2: the length of the associated data is encoded on 2 bytes below 2^16 - 2^8, on 0xFFFE + 4 bytes from there
         for hl in (65279, 65280, 65535, 65536) if thorough else (65279, 65280, 65536):
